@@ -46,7 +46,7 @@ type c28FindCase struct {
 func c28FindCases(thorough bool) []c28FindCase {
 	names := []string{"line3", "line4", "star4", "cycle4"}
 	if thorough {
-		names = append(names, "cycle4+chord", "kite5", "tee5")
+		names = append(names, "cycle4+chord", "tee5")
 	}
 	var out []c28FindCase
 	for ti, t := range c28Topos {
@@ -103,7 +103,8 @@ func TestVerifC28RelayFind(t *testing.T) {
 		"discovery":    "the handler blocks in the real FindRoute; every delivery order of the discovery messages through the other nodes' real handlers until the first response reaches the relay node (then the handler continues alone), or until quiescence (then the context is cancelled)",
 		"repetitions":  fmt.Sprintf("%d (same delivery order) when more than one neighbour next hop is stored at the second lookup (math/rand pick)", reps)}},
 		func(x *mc.X) {
-			cs := cases[x.Choose(len(cases))]
+			x0 := x.Choose(len(cases))
+			cs := cases[x0]
 			topo := c28Topos[cs.topo]
 			self, tg := cs.self, cs.target
 			var others []int
@@ -178,6 +179,7 @@ func TestVerifC28RelayFind(t *testing.T) {
 					return nil
 				}
 				nodes := make([]*Service, topo.n)
+				cnodes := make([]*c28Node, topo.n)
 				pm := &c28P2P{Service: p2pmock.New()}
 				for i := 0; i < topo.n; i++ {
 					book := addressbook.New(mockstate.NewStateStore())
@@ -193,6 +195,7 @@ func TestVerifC28RelayFind(t *testing.T) {
 					nodes[i] = New(c28Idents[i].overlay, ctx, ps, net.Streamer(c28Idents[i].overlay), book, 0,
 						lightnode.NewContainer(c28Idents[i].overlay), w.kads[i], mockstate.NewStateStore(), logger, Options{Alpha: 3})
 					net.AddNode(c28Idents[i].overlay, nodes[i].Protocol())
+					cnodes[i] = &c28Node{idx: i, svc: nodes[i], book: book}
 				}
 				svc := nodes[self]
 				if stored != nil {
@@ -303,6 +306,24 @@ func TestVerifC28RelayFind(t *testing.T) {
 					}
 					if had && !ownPending() {
 						signalled = true // respForward handed the result to the waiting FindRoute
+					}
+					if rep == 0 && !signalled {
+						// same global state (all tables, pending tables, in-flight messages) reached by
+						// another delivery order: same future
+						var sb strings.Builder
+						fmt.Fprintf(&sb, "%d via%s stored%s | ", x0, names(via), names(stored))
+						for _, nd := range cnodes {
+							sb.WriteString(c28NodeCanon(nd, target))
+						}
+						for _, q := range net.InFlight() {
+							sb.WriteString(c28Canon(q))
+							sb.WriteString(" ; ")
+						}
+						if x.Seen(sb.String(), 0) {
+							cancel()
+							<-done
+							return
+						}
 					}
 				}
 				if !signalled {
